@@ -43,6 +43,7 @@ func init() {
 }
 
 var absTried, absUnsat, absSat int
+var absDebug = os.Getenv("VERIF_ABSDEBUG") != ""
 
 // absCheck is the hook called from (*SolverSet).Check after the cache lookups.
 func (s *SolverSet) absCheck(live []*Term, key string, wantModel bool) (Result, map[string]*Term, bool) {
@@ -218,6 +219,15 @@ func (s *SolverSet) tryAbstract(live []*Term, wantModel bool) (Result, map[strin
 	}
 	absTried++
 	res, model := s.askZ3(script, vars, true, ms)
+	if absDebug {
+		fmt.Printf("ABS q: prods=%d side=%d -> %v\n", len(prods), len(side), res)
+		if res != Unsat {
+			fmt.Printf("ABS   goal: %s\n", live[len(live)-1].Pretty(5))
+		}
+		if res != Unsat && s.DumpDir != "" {
+			os.WriteFile(fmt.Sprintf("%s/abs%d-%v.smt2", s.DumpDir, absTried, res), []byte(script+"(check-sat)\n"), 0o644)
+		}
+	}
 	switch res {
 	case Unsat:
 		absUnsat++
@@ -246,78 +256,119 @@ func (s *SolverSet) tryAbstract(live []*Term, wantModel bool) (Result, map[strin
 		// variables of the smaller operand of every product (typically
 		// the fee rates), which makes every product linear, and solve
 		// the original query for the remaining variables.
-		fix := map[string]*Term{}
+		fixVars := map[string]*Term{}
 		for _, t := range prods {
 			v0, v1 := termVars(t.Args[0]), termVars(t.Args[1])
 			if len(v1) < len(v0) {
 				v0 = v1
 			}
 			for _, v := range v0 {
-				fix[v.Name] = m[v.Name]
+				fixVars[v.Name] = v
 			}
 		}
-		smemo := map[int]*Term{}
-		var sub func(t *Term) *Term
-		sub = func(t *Term) *Term {
-			if t.IsConst() {
-				return t
-			}
-			if t.Op == OpVar {
-				if c, ok := fix[t.Name]; ok && c != nil {
-					return c
+		// candidate values for the fixed variables: the abstract model's,
+		// all zero, all one, the largest value the top-level bounds allow
+		for attempt := 0; attempt < 4; attempt++ {
+			fix := map[string]*Term{}
+			for name, v := range fixVars {
+				if v.Sort.K != KBV {
+					fix[name] = m[name]
+					continue
 				}
-				return t
-			}
-			if r, ok := smemo[t.ID]; ok {
-				return r
-			}
-			args := make([]*Term, len(t.Args))
-			changed := false
-			for i, x := range t.Args {
-				args[i] = sub(x)
-				if args[i] != x {
-					changed = true
+				switch attempt {
+				case 0:
+					fix[name] = m[name]
+				case 1:
+					fix[name] = BV(0, v.Sort.W)
+				case 2:
+					fix[name] = BV(1, v.Sort.W)
+				case 3:
+					iv := ctx.of(v)
+					if iv.shi.Sign() >= 0 && iv.shi.Cmp(iv.uhi) <= 0 {
+						fix[name] = BVBig(iv.shi, v.Sort.W)
+					} else {
+						fix[name] = BVBig(iv.uhi, v.Sort.W)
+					}
 				}
 			}
-			res := t
-			if changed {
-				res = rebuild(t, args)
+			if mm, ok := s.absLinear(live, ovars, fix, m, ms); ok {
+				absSat++
+				return Sat, mm
 			}
-			smemo[t.ID] = res
-			return res
-		}
-		var lin []*Term
-		for _, a := range live {
-			r := sub(a)
-			if r.IsFalse() {
-				return Unknown, nil
-			}
-			if !r.IsTrue() {
-				lin = append(lin, r)
-			}
-		}
-		m2 := map[string]*Term{}
-		if len(lin) > 0 {
-			lscript, lvars := Script(elimDiv(lin))
-			r2, mm := s.askZ3(lscript, lvars, true, ms)
-			if r2 != Sat || mm == nil {
-				return Unknown, nil
-			}
-			m2 = mm
-		}
-		for _, v := range ovars {
-			if c, ok := fix[v.Name]; ok && c != nil {
-				m[v.Name] = c
-			} else if val, ok := m2[v.Name]; ok {
-				m[v.Name] = val
-			}
-		}
-		if absHolds(live, m) {
-			absSat++
-			return Sat, m
 		}
 	}
 	return Unknown, nil
+}
+
+// absLinear substitutes the fixed values, solves the (now product-free) rest
+// and validates the combined assignment on the original conjuncts.
+func (s *SolverSet) absLinear(live []*Term, ovars []*Term, fix map[string]*Term, base map[string]*Term, ms int) (map[string]*Term, bool) {
+	smemo := map[int]*Term{}
+	var sub func(t *Term) *Term
+	sub = func(t *Term) *Term {
+		if t.IsConst() {
+			return t
+		}
+		if t.Op == OpVar {
+			if c, ok := fix[t.Name]; ok && c != nil {
+				return c
+			}
+			return t
+		}
+		if r, ok := smemo[t.ID]; ok {
+			return r
+		}
+		args := make([]*Term, len(t.Args))
+		changed := false
+		for i, x := range t.Args {
+			args[i] = sub(x)
+			if args[i] != x {
+				changed = true
+			}
+		}
+		res := t
+		if changed {
+			res = rebuild(t, args)
+		}
+		smemo[t.ID] = res
+		return res
+	}
+	var lin []*Term
+	for _, a := range live {
+		r := sub(a)
+		if r.IsFalse() {
+			return nil, false
+		}
+		if !r.IsTrue() {
+			lin = append(lin, r)
+		}
+	}
+	m2 := map[string]*Term{}
+	if len(lin) > 0 {
+		lscript, lvars := Script(elimDiv(lin))
+		r2, mm := s.askZ3(lscript, lvars, true, ms)
+		if absDebug {
+			fmt.Printf("ABS lin: fixed=%d -> %v\n", len(fix), r2)
+		}
+		if r2 != Sat || mm == nil {
+			return nil, false
+		}
+		m2 = mm
+	}
+	out := map[string]*Term{}
+	for _, v := range ovars {
+		if c, ok := fix[v.Name]; ok && c != nil {
+			out[v.Name] = c
+		} else if val, ok := m2[v.Name]; ok {
+			out[v.Name] = val
+		} else if val, ok := base[v.Name]; ok {
+			out[v.Name] = val
+		}
+	}
+	if absHolds(live, out) {
+		return out, true
+	}
+	return nil, false
 }
 
 func absHolds(live []*Term, m map[string]*Term) bool {
